@@ -33,10 +33,12 @@ Stmts == <<
   (* 5 *) <<[t |-> "for", tag |-> "for", var |-> Y, coll |-> R12,
              body |-> <<[t |-> "if", branches |-> <<[c |-> [t |-> "cmp", op |-> "==", a |-> Var(Y), b |-> Lit(IntV(1))], body |-> <<[t |-> "break"]>>]>>],
                         T(<<33>>)>>]>>,
-  (* 6 *) <<Ob(Var(X)), T(<<124>>), Ob(Var(Y)), T(<<124>>), FLI, T(<<59>>)>>,
+  (* 6 *) <<Ob(Var(X)), T(<<124>>), Ob(Var(Y)), T(<<124>>), FLI, Ob(Var(B_forloop)), T(<<59>>)>>,
   (* 7 *) <<[t |-> "if", branches |-> <<[c |-> Var(X), body |-> <<[t |-> "assign", name |-> Y, e |-> Lit(IntV(2))]>>]>>]>>,
   (* 8 *) <<[t |-> "for", tag |-> "for", var |-> X, coll |-> R12, body |-> <<[t |-> "assign", name |-> Y, e |-> Var(X)]>>]>>,
-  (* 9 *) <<[t |-> "capture", name |-> Y, body |-> <<[t |-> "for", tag |-> "for", var |-> X, coll |-> R12, body |-> <<Ob(Var(X))>>]>>]>>
+  (* 9 *) <<[t |-> "capture", name |-> Y, body |-> <<[t |-> "for", tag |-> "for", var |-> X, coll |-> R12, body |-> <<Ob(Var(X))>>]>>]>>,
+  (* 10: a variable that happens to be called forloop is an ordinary variable outside loops *)
+          <<[t |-> "assign", name |-> B_forloop, e |-> Lit(Str(<<102>>))]>>
 >>
 NS == Len(Stmts)
 
@@ -60,12 +62,13 @@ Decl(ix, s) ==
                    [] i = 3 -> [s EXCEPT !.x = Str(<<99>> \o Tx(s.y))]
                    [] i = 4 -> [s EXCEPT !.out = @ \o <<91, 49, 49, 93, 91, 50, 50, 93>>]
                    [] i = 5 -> s
-                   [] i = 6 -> [s EXCEPT !.out = @ \o Tx(s.x) \o <<124>> \o Tx(s.y) \o <<124, 59>>]
+                   [] i = 6 -> [s EXCEPT !.out = @ \o Tx(s.x) \o <<124>> \o Tx(s.y) \o <<124>> \o Tx(s.fl) \o <<59>>]
                    [] i = 7 -> IF Truthy(s.x) THEN [s EXCEPT !.y = IntV(2)] ELSE s
                    [] i = 8 -> [s EXCEPT !.y = IntV(2)]
                    [] i = 9 -> [s EXCEPT !.y = Str(<<49, 50>>)]
+                   [] i = 10 -> [s EXCEPT !.fl = Str(<<102>>)]
        IN  Decl(Tail(ix), s2)
-DeclOut(ix) == Decl(ix \o <<6>>, [x |-> Nil, y |-> Nil, out |-> <<>>]).out
+DeclOut(ix) == Decl(ix \o <<6>>, [x |-> Nil, y |-> Nil, fl |-> Nil, out |-> <<>>]).out
 
 Init == \E ix \in Programs : p = ix /\ st = InitSt(ProgOf(ix), EnvOf(<<>>), Sink0, Cx0)
 Next == st.status = "run" /\ st' = Step(Cx0, st) /\ p' = p
@@ -74,7 +77,7 @@ Terminates == st.status \in {"run", "ok"}
 OutputLaw == st.status = "ok" => st.sink.acc = DeclOut(p)
 \* forloop is nil whenever no loop is running (restored, also after break)
 LoopFrames == {j \in 1..Len(st.k) : st.k[j].f = "loop"}
-ForloopRestored == LoopFrames = {} => IsNil(Lookup(st.env, B_forloop))
+ForloopRestored == LoopFrames = {} => (IsNil(Lookup(st.env, B_forloop)) \/ Same(Lookup(st.env, B_forloop), Str(<<102>>)))
 \* captured text is not output: no step taken while a capture is open changes what the sink has accepted
 CaptureSilent == [][Len(st.ws) > 1 => st'.sink = st.sink]_vars
 \* wrapping the program in capture and printing the variable renders the same
